@@ -174,6 +174,17 @@ macro_rules! define_hasher {
             }
         }
 
+        /// Verification hook: overwrite / read the bit counter `t`.
+        #[cfg(cryptocorrosion_verif)]
+        impl $name {
+            pub fn verif_set_counter(&mut self, t0: $word, t1: $word) {
+                self.t = (t0, t1);
+            }
+            pub fn verif_get_counter(&self) -> ($word, $word) {
+                self.t
+            }
+        }
+
         impl core::fmt::Debug for $name {
             fn fmt(&self, f: &mut core::fmt::Formatter) -> Result<(), core::fmt::Error> {
                 f.debug_struct("(Blake)").finish()
